@@ -3,7 +3,7 @@ tie: E7 runs recycling patterns for N and FACTOR*N rounds on the crate under the
 measurements; the recycling op mix is also covered by the E1 histories (M2 replay)."""
 import core, eng_heap
 PROP = "C18"
-NEEDS = {"profiles": ["release"], "modelrun": True}
+NEEDS = {"profiles": ["debug", "release"], "modelrun": True}
 RULE = ("20 periodic patterns (4 consumption modes: split_to / split / advance / split_off+replace x message, leftover and initial-capacity settings) + seeded random patterns "
         "(message 1..5000 fixed or varying, leftover 0..m-1, initial capacity 0..64 KiB, retention window k in {0,1,2,5}, freeze+clone of parts, Bytes round trip of the recycling handle, "
         "unsplit of split parts), each for N and FACTOR*N rounds; measured per pattern: peak live bytes, byte-buffer allocations, largest capacity in the first N rounds and overall; "
@@ -12,6 +12,8 @@ ASSUMPTIONS = ["std's Vec::reserve grows to at most max(2*cap, needed, 8) (oracl
                "the abstract policy of Recycle.v is a second transliteration of reserve_inner; its simulation by Heap.reserve_inner is an open proof obligation (DESIGN §10)"]
 TRUSTED_EXTRA = ["harness/src/e_recycle.rs (ledger statistics per round)"]
 DIRECT = r"^c18-"
+# the clause "a reserve on an empty handle that is alone on a large-enough buffer never allocates" is evaluated on every E1 history (kind shared with C08)
+HEAP_DIRECT = r"^c08-sole-owner-reclaim"
 def translators(ctx, bins): pass
 def engines(ctx, bins):
     def go():
@@ -33,5 +35,6 @@ def engines(ctx, bins):
     ctx.cov["rounds_per_pattern"] = res["rounds"]
     for a in res["abnormal"]: ctx.failing.append({"kind": "abnormal-exit", "detail": a, "case": a})
     for m in res["mism"]: ctx.failing.append({"kind": m["kind"], "detail": m["detail"], "case": m["detail"].split(" :: ")[-1]})
+    eng_heap.absorb(ctx, eng_heap.run(ctx, bins), HEAP_DIRECT)
     ctx.cov["traces_validated_against_impl"] = ctx.cov.get("evaluations", 0)
 def replay(ctx, bins, payload): engines(ctx, bins)
